@@ -1,0 +1,12 @@
+//go:build verif
+
+package fuse
+
+import "bazil.org/fuse/fs"
+
+// VerifAttachNullServer attaches a connection-less fs.Server so that handlers
+// which notify the kernel (e.g. RootNode.Remove) can be driven in-process
+// without a mount. Only compiled in with the "verif" build tag.
+func (fsys *FileSystem) VerifAttachNullServer() {
+	fsys.server = fs.New(nil, nil)
+}
